@@ -491,8 +491,21 @@ def gen_roundtrip_events(rng, n, backend):
 
 
 def nonwf_events(rng):
-    """validly signed events whose tags contain non-string items / are not arrays of arrays of strings"""
+    """validly signed events whose tags contain non-string items / are not arrays of arrays of strings; events whose hex fields
+    are written in upper / mixed case (the signature still verifies: whatever of them is accepted must be served as accepted);
+    integers in tags at and beyond the ends of the 64-bit ranges (accepted ones must come back as the same integers)"""
     out = []
+    for k, big in enumerate([2 ** 63 - 1, 2 ** 63, 2 ** 64 - 1, 2 ** 64, 10 ** 21, -(2 ** 63), -(2 ** 63) - 1, 10 ** 40]):
+        for tags in ([["amount", big]], [["x-big", "v", big]], [["nonce", str(k), big]]):
+            try:
+                out.append(mk_signed(k % 4, 1, env.NOW - 200 - len(out), tags, "bigint %d" % len(out)))
+            except Exception:
+                pass
+    for k, field in enumerate(["pubkey", "sig", "id", "pubkey", "sig"]):
+        e = mk_signed(k % 4, 1, env.NOW - 300 - k, [["t", "case"]], "upper %d" % k)
+        e = dict(e)
+        e[field] = e[field].upper() if k < 3 else "".join(c.upper() if i % 2 else c for i, c in enumerate(e[field]))
+        out.append(e)
     for tags in ([["e", True]], [["e", None]], [["t", ["a", "b"]]], [[1.5]], ["ab"], [["e", "x"], [False]], [[]], [["p", {"a": 1}]]):
         try:
             out.append(mk_signed(0, 1, env.NOW - 50 - len(out), tags, "nonwf %d" % len(out)))
@@ -566,8 +579,11 @@ def suite_roundtrip(tier, rng):
             esc = json.dumps(d["content"], ensure_ascii=False) != '"%s"' % d["content"] or any(json.dumps(x, ensure_ascii=False) != '"%s"' % x for t in d["tags"] if isinstance(t, list) for x in t if isinstance(x, str))
             s.case({"backend": backend, "content": d["content"][:40], "tags": str(d["tags"])[:80]}, nontrivial=esc)
             s.count("%s_%s_%s" % (backend, "wf" if wf else "nonstring_tags", "accepted" if r["accepted"] else "refused"))
+            canonical_hex = all(d[f] == d[f].lower() for f in ("id", "pubkey", "sig"))
             if not r["accepted"]:
-                if wf:
+                # refusing a non-canonical event is C03's business; C04 is about what is served of the events that ARE accepted
+                storable_ints = all(-(2 ** 63) <= x < 2 ** 64 for tg in d["tags"] if isinstance(tg, list) for x in tg if type(x) is int)
+                if wf and canonical_hex and storable_ints:
                     s.disagree({"backend": backend, "event": d}, "accepted", r["error"] or "refused")
                 continue
             base = {"backend": backend, "event": d}
